@@ -39,6 +39,10 @@ pub struct Scn {
 
 pub struct A5;
 
+/// Secrets produced from the real OS RNG anywhere in this process, by any worker thread. A repeat
+/// across operations has probability 2^-256 with a working generator.
+static OS_RNG_SECRETS: std::sync::Mutex<std::collections::BTreeSet<(u8, Vec<u8>)>> = std::sync::Mutex::new(std::collections::BTreeSet::new());
+
 impl Family for A5 {
     type Scenario = Scn;
     fn name(&self) -> &'static str {
@@ -161,6 +165,13 @@ impl Family for A5 {
                 }
                 if drawn_before.iter().any(|d| *d == val) && kind != "ephemeral public key" {
                     out.violations.push(viol("C07", "secret_from_earlier_entropy", format!("op {}: {} equals a value drawn from the entropy source by an earlier operation", oi, kind)));
+                }
+                if s.entropy_tag.is_none() {
+                    let tagk = kind.as_bytes()[0];
+                    let fresh = OS_RNG_SECRETS.lock().unwrap().insert((tagk, val.clone()));
+                    if !fresh && !seen.iter().any(|(k, _, v)| *k == kind && *v == val) {
+                        out.violations.push(viol("C07", "secret_repeated_across_threads", format!("op {} ({:?}): this {} was already produced by another operation history in this process (another thread or an earlier history) although it comes from the OS RNG", oi, op, kind)));
+                    }
                 }
                 seen.push((kind, oi, val));
             }
